@@ -164,6 +164,10 @@ def unsplit (scheme netloc path query fragment : Str) : Str :=
 
 def gemini : Str := ['g', 'e', 'm', 'i', 'n', 'i']
 
+/-- `f"[{hostname}]" if ":" in hostname else hostname`: an IP literal containing `:` stays bracketed
+    in the normalised string (an IPvFuture literal without `:` loses its brackets) -/
+def rebracket (host : Str) : Str := if host.contains ':' then '[' :: (host ++ [']']) else host
+
 /-- the checks `parse_url` applies to the split result, in its order -/
 def parseSplit (env : Env) (sp : Split) : Except Err Parsed :=
   if sp.scheme.isEmpty then .error .noScheme
@@ -178,7 +182,7 @@ def parseSplit (env : Env) (sp : Split) : Except Err Parsed :=
         | .ok port? =>
           let port := port?.getD 1965
           let path := if sp.path.isEmpty then ['/'] else sp.path
-          let nl := if port ≠ 1965 then host ++ [':'] ++ natToStr port else host
+          let nl := if port ≠ 1965 then rebracket host ++ [':'] ++ natToStr port else rebracket host
           .ok { host, port, path, query := sp.query, normalized := unsplit gemini nl path sp.query sp.fragment }
 
 def parseUrl (env : Env) (url : Str) : Except Err Parsed :=
